@@ -909,6 +909,15 @@ func superMain(w World, cfg Config) int {
 				trouble = append(trouble, "confirmation run misbehaved for "+s+": "+det)
 				continue
 			}
+			if sig == "" && strings.HasPrefix(s, "hang|") {
+				// the same rule as in the worker path: a case that exceeded the bound (even once more under
+				// the first confirmation) and returns cleanly when run alone with three times the bound is a
+				// slow moment on a loaded machine, not a property of the code
+				noteMu.Lock()
+				slowNotes = append(slowNotes, fmt.Sprintf("case seed %d exceeded the liveness bound (%s) but returned cleanly when re-run alone with three times the bound (machine load); counted, not reported", f.seed, s))
+				noteMu.Unlock()
+				continue
+			}
 			if sig != s {
 				trouble = append(trouble, fmt.Sprintf("violation %q did not reproduce in a fresh process (got %q); treated as harness nondeterminism, not reported", s, sig))
 				continue
